@@ -151,12 +151,36 @@ func (p pred) build(withMeasurementExpr bool) (influxdb.Predicate, influxql.Expr
 	return pr, mexpr, err
 }
 
-func drawPred(t *rapid.T, label string) pred {
-	host := func() cmp { return cmp{"host", rapid.SampledFrom([]string{"a", "b", "b", "a!"}).Draw(t, label+"host")} }
-	region := func() cmp { return cmp{"region", rapid.SampledFrom([]string{"x", "y"}).Draw(t, label+"region")} }
-	meas := func() cmp {
-		return cmp{"_measurement", rapid.SampledFrom([]string{"m0", "m1", "m0x", "m0"}).Draw(t, label+"meas")}
+func drawPred(t *rapid.T, label string, series []string) pred {
+	// values mostly taken from the series that take part in the history (a delete that matches
+	// nothing is a rare case, not the typical one)
+	hosts, regions, names := []string{}, []string{}, []string{}
+	seen := map[string]bool{}
+	add := func(dst *[]string, kind, v string) {
+		if !seen[kind+v] {
+			seen[kind+v] = true
+			*dst = append(*dst, v)
+		}
 	}
+	for _, sk := range series {
+		name, tags := parseSeries(sk)
+		add(&names, "m", name)
+		if v, ok := tags["host"]; ok {
+			add(&hosts, "h", v)
+		}
+		if v, ok := tags["region"]; ok {
+			add(&regions, "r", v)
+		}
+	}
+	pick := func(have []string, all []string, l string) string {
+		if len(have) > 0 && rapid.IntRange(0, 9).Draw(t, l+"?") > 0 {
+			return rapid.SampledFrom(have).Draw(t, l)
+		}
+		return rapid.SampledFrom(all).Draw(t, l+"any")
+	}
+	host := func() cmp { return cmp{"host", pick(hosts, []string{"a", "b", "a!"}, label+"host")} }
+	region := func() cmp { return cmp{"region", pick(regions, []string{"x", "y"}, label+"region")} }
+	meas := func() cmp { return cmp{"_measurement", pick(names, []string{"m0", "m1", "m0x"}, label+"meas")} }
 	switch k := rapid.IntRange(0, 19).Draw(t, label+"kind"); {
 	case k < 2:
 		return nil
@@ -211,8 +235,15 @@ type machine struct {
 	// staleOK: series that known finding delete-index-prefix-series-kept leaves in a shard's index
 	// without data (only filled while that finding is listed open)
 	staleOK map[string]bool
-	seq    int
-	ops    []op
+	// staleHours: for the series in staleOK, the hours (shards) whose index may keep them
+	staleHours map[string]map[int]bool
+	// tombHours: (series, hour) pairs for which the signature of known finding
+	// series-listed-while-tsm-key-fully-tombstoned was observed right after a delete; the stale
+	// index entry outlives the TSM key (a compaction drops the key, nothing revisits the index)
+	tombHours map[string]map[int]bool
+	tombUsed  bool // the tolerance of known finding series-listed-while-tsm-key-fully-tombstoned was used
+	seq       int
+	ops       []op
 }
 
 func newMachine(hours int, series []string) (*machine, error) {
@@ -225,7 +256,7 @@ func newMachine(hours int, series []string) (*machine, error) {
 		os.RemoveAll(dir)
 		return nil, err
 	}
-	return &machine{s: s, dir: dir, m: model.NewStore(), hours: hours, series: series, dirty: map[int]bool{}, cached: map[int]map[string]bool{}, staleOK: map[string]bool{}}, nil
+	return &machine{s: s, dir: dir, m: model.NewStore(), hours: hours, series: series, dirty: map[int]bool{}, cached: map[int]map[string]bool{}, staleOK: map[string]bool{}, staleHours: map[string]map[int]bool{}, tombHours: map[string]map[int]bool{}}, nil
 }
 
 func (mc *machine) close() {
@@ -355,12 +386,13 @@ func (mc *machine) compact(h int) error {
 }
 
 type delStats struct {
-	removed     int
-	hoursHit    map[int]bool
-	emptied     []string // series that lost their last point
-	measKept    bool     // some emptied series' measurement still has a live series
-	tsmAndCache bool
-	prefixKept  []string // series hit by the signature of known finding delete-index-prefix-series-kept
+	removed      int
+	hoursHit     map[int]bool
+	emptied      []string // series that lost their last point
+	measKept     bool     // some emptied series' measurement still has a live series
+	tsmAndCache  bool
+	prefixKept   []string // series hit by the signature of known finding delete-index-prefix-series-kept
+	prefixKeptAt [][2]any // (series, hour) of the same
 }
 
 // prefixPairInMatch reports the signature of known finding delete-series-key-prefix-order: some
@@ -488,6 +520,7 @@ func (mc *machine) delete(min, max int64, p pred, mexpr bool) (delStats, error) 
 				for k := range mc.cached[h] {
 					if strings.HasPrefix(k, b+"\x00") {
 						st.prefixKept = append(st.prefixKept, fmt.Sprintf("%s (kept by cached %s in hour %d)", a, b, h))
+						st.prefixKeptAt = append(st.prefixKeptAt, [2]any{a, h})
 						break
 					}
 				}
@@ -497,8 +530,13 @@ func (mc *machine) delete(min, max int64, p pred, mexpr bool) (delStats, error) 
 	sort.Strings(st.prefixKept)
 	if len(st.prefixKept) > 0 && ev.KnownOpen("C17", knownKeptKey) {
 		// exactly the series named by the signature may stay listed without data
-		for _, e := range st.prefixKept {
-			mc.staleOK[strings.SplitN(e, " (", 2)[0]] = true
+		for _, e := range st.prefixKeptAt {
+			sk, h := e[0].(string), e[1].(int)
+			mc.staleOK[sk] = true
+			if mc.staleHours[sk] == nil {
+				mc.staleHours[sk] = map[int]bool{}
+			}
+			mc.staleHours[sk][h] = true
 		}
 	}
 	liveAfter := map[string]bool{}
@@ -601,7 +639,11 @@ func (mc *machine) tagValues(key string, start, end int64) ([]string, error) {
 }
 
 // observe compares everything observable with the model; nil = agreement.
-func (mc *machine) observe() *finding {
+func (mc *machine) observe() *finding { return mc.observeWith(true) }
+
+// observeWith: tombTolerance=false ignores the listing of known finding
+// series-listed-while-tsm-key-fully-tombstoned (used by its reproducer).
+func (mc *machine) observeWith(tombTolerance bool) *finding {
 	ctx := context.Background()
 	lo, hi := models.MinNanoTime, models.MaxNanoTime
 	// --- points: ReadFilter of everything
@@ -639,12 +681,49 @@ func (mc *machine) observe() *finding {
 		}
 	}
 	// --- series listing (the index series the read service enumerates; SeriesCardinality)
-	tolerated := 0
-	for sk := range mc.staleOK {
+	// tol: series (without remaining data) that an open known finding may leave in the index of the
+	// given hours' shards
+	tol := map[string]map[int]bool{}
+	for sk, hs := range mc.staleHours {
 		if !wantSeries[sk] {
-			tolerated++
-			delete(listed, sk) // may or may not be listed (open known finding)
+			tol[sk] = map[int]bool{}
+			for h := range hs {
+				tol[sk][h] = true
+			}
 		}
+	}
+	if tombTolerance && ev.KnownOpen("C17", knownTombKey) {
+		// signature of series-listed-while-tsm-key-fully-tombstoned: the series has no remaining point
+		// (the read above agreed with the model), yet a TSM file of some shard still carries an index
+		// key of it (every value of the key is tombstoned, the tombstones do not cover the key's whole
+		// block range contiguously)
+		for sk := range listed {
+			if wantSeries[sk] {
+				continue
+			}
+			for h := range mc.hoursWithTSMKey(sk) {
+				if mc.tombHours[sk] == nil {
+					mc.tombHours[sk] = map[int]bool{}
+				}
+				mc.tombHours[sk][h] = true
+				mc.tombUsed = true
+			}
+		}
+		for sk, hs := range mc.tombHours {
+			if wantSeries[sk] {
+				continue
+			}
+			if tol[sk] == nil {
+				tol[sk] = map[int]bool{}
+			}
+			for h := range hs {
+				tol[sk][h] = true
+			}
+		}
+	}
+	tolerated := len(tol)
+	for sk := range tol {
+		delete(listed, sk) // may or may not be listed
 	}
 	if got, want := sortedKeys(listed), sortedKeys(wantSeries); !sameSet(got, want) {
 		key := "series-listed-without-data"
@@ -660,7 +739,23 @@ func (mc *machine) observe() *finding {
 	} else if int(n) < len(wantSeries) || int(n) > len(wantSeries)+tolerated {
 		return &finding{"series-cardinality", fmt.Sprintf("Store.SeriesCardinality = %d, series with remaining data %d %v (tolerated by open known finding: %v)", n, len(wantSeries), sortedKeys(wantSeries), sortedKeys(mc.staleOK))}
 	}
-	// --- measurements
+	// --- measurements (a series kept in an index by the open known finding keeps its measurement
+	// listed as well: such a measurement may or may not be listed)
+	tolMeas := map[string]bool{}
+	for sk := range tol {
+		if n, _ := parseSeries(sk); !wantMeas[n] {
+			tolMeas[n] = true
+		}
+	}
+	dropTolerated := func(in []string, tol map[string]bool) []string {
+		out := in[:0:0]
+		for _, n := range in {
+			if !tol[n] {
+				out = append(out, n)
+			}
+		}
+		return out
+	}
 	names, err := mc.s.Store.MeasurementNames(ctx, query.OpenAuthorizer, mc.s.DB(), nil)
 	if err != nil {
 		return &finding{"metadata-error", "MeasurementNames: " + err.Error()}
@@ -670,15 +765,17 @@ func (mc *machine) observe() *finding {
 		got = append(got, string(n))
 	}
 	sort.Strings(got)
+	got = dropTolerated(got, tolMeas)
 	if want := sortedKeys(wantMeas); !sameSet(got, want) {
-		return &finding{"measurement-listing", fmt.Sprintf("Store.MeasurementNames %v, measurements with remaining data %v", got, want)}
+		return &finding{"measurement-listing", fmt.Sprintf("Store.MeasurementNames %v, measurements with remaining data %v (tolerated by open known finding: %v)", got, want, sortedKeys(tolMeas))}
 	}
 	gotM, err := mc.tagValues("_measurement", lo, hi)
 	if err != nil {
 		return &finding{"metadata-error", "TagValues(_measurement): " + err.Error()}
 	}
+	gotM = dropTolerated(gotM, tolMeas)
 	if want := sortedKeys(wantMeas); !sameSet(gotM, want) {
-		return &finding{"measurement-listing", fmt.Sprintf("TagValues(_measurement) %v, measurements with remaining data %v", gotM, want)}
+		return &finding{"measurement-listing", fmt.Sprintf("TagValues(_measurement) %v, measurements with remaining data %v (tolerated by open known finding: %v)", gotM, want, sortedKeys(tolMeas))}
 	}
 	// --- tag keys and values
 	src, err := mc.s.Source()
@@ -755,6 +852,9 @@ func (mc *machine) observe() *finding {
 				if err != nil {
 					return &finding{"metadata-error", err.Error()}
 				}
+				if ok && !upM[name] && (staleMeasAt(mc.staleHours, name, h) || staleMeasAt(mc.tombHours, name, h)) {
+					continue // kept by a series the open known finding leaves in this shard's index
+				}
 				if ok {
 					gm = append(gm, name)
 				}
@@ -765,6 +865,38 @@ func (mc *machine) observe() *finding {
 		}
 	}
 	return nil
+}
+
+// staleMeasAt reports whether a tolerated series of measurement name may sit in hour h's index.
+func staleMeasAt(tol map[string]map[int]bool, name string, h int) bool {
+	for sk, hs := range tol {
+		if n, _ := parseSeries(sk); n == name && hs[h] {
+			return true
+		}
+	}
+	return false
+}
+
+// hoursWithTSMKey returns the hours whose shard still has a TSM index key of the series.
+func (mc *machine) hoursWithTSMKey(sk string) map[int]bool {
+	out := map[int]bool{}
+	for h := 0; h < mc.hours; h++ {
+		id := mc.shardOfHour(h)
+		if id == 0 {
+			continue
+		}
+		e, err := mc.s.ShardEngine(id)
+		if err != nil {
+			continue
+		}
+		for k := range e.FileStore.Keys() {
+			if strings.HasPrefix(k, sk+"#!~#") {
+				out[h] = true
+				break
+			}
+		}
+	}
+	return out
 }
 
 // supersetCheck: live ⊆ got ⊆ ever; stale entries (got but not live) are tallied.
@@ -795,6 +927,7 @@ func supersetCheck(kind, what string, got []string, live, ever map[string]bool) 
 
 const knownPrefixKey = "delete-series-key-prefix-order"
 const knownKeptKey = "delete-index-prefix-series-kept"
+const knownTombKey = "series-listed-while-tsm-key-fully-tombstoned"
 
 func drawRange(t *rapid.T, hours int) (int64, int64, string) {
 	switch k := rapid.IntRange(0, 19).Draw(t, "rkind"); {
@@ -895,7 +1028,7 @@ func TestPropBucketDelete(t *testing.T) {
 			t.Fatalf("write: %v", err)
 		}
 		deletes, nontrivial := 0, false
-		t.Repeat(map[string]func(*rapid.T){
+		actions := map[string]func(*rapid.T){
 			"write": func(t *rapid.T) {
 				if err := mc.write(mc.drawPoints(t, "w", rapid.IntRange(1, 8).Draw(t, "wn"))); err != nil {
 					t.Fatalf("write: %v", err)
@@ -921,7 +1054,7 @@ func TestPropBucketDelete(t *testing.T) {
 			},
 			"delete": func(t *rapid.T) {
 				min, max, rk := drawRange(t, hours)
-				p := drawPred(t, "p")
+				p := drawPred(t, "p", series)
 				mexpr := rapid.Bool().Draw(t, "mexpr")
 				if mc.prefixPairInMatch(p) && ev.KnownOpen("C17", knownPrefixKey) {
 					rec.ExcludedKnown(knownPrefixKey)
@@ -967,7 +1100,9 @@ func TestPropBucketDelete(t *testing.T) {
 				}
 			},
 			"": func(t *rapid.T) {},
-		})
+		}
+		actions["delete2"] = actions["delete"] // deletes are the subject: twice the weight
+		t.Repeat(actions)
 		rec.Eval()
 		if f := mc.observe(); f != nil {
 			fail(f.Key, "final observation: "+f.Detail)
@@ -982,6 +1117,9 @@ func TestPropBucketDelete(t *testing.T) {
 			if f := mc.observe(); f != nil {
 				fail(f.Key, "after reopen: "+f.Detail)
 			}
+		}
+		if mc.tombUsed {
+			rec.ExcludedKnown(knownTombKey)
 		}
 		rec.Class(fmt.Sprintf("history:shards-%d", hours))
 		if deletes > 0 {
